@@ -1,6 +1,7 @@
 package main
 
 import (
+	"regexp"
 	"fmt"
 	"go/constant"
 	"go/token"
@@ -696,8 +697,26 @@ func (e *Engine) havocLoopGhosts(s *State, fr *Frame, li *LoopInfo) {
 			}
 		}
 	}
+	// Two readings of a ghost assigned inside a loop body coexist: (a) loop-carried - the ghost is related to program
+	// variables by an invariant of this loop (it is mentioned there): it is havocked at the cut like every variable
+	// the body writes; (b) iteration-local - not mentioned in any invariant of the loop: it keeps its value from
+	// before the loop in the arbitrary iteration, i.e. it records what ONE iteration did ("at loopstep#n assert").
+	// Reading such a ghost after the loop tells nothing about earlier iterations.
+	lc := c.Loops[li.Ordinal]
+	mentioned := func(name string) bool {
+		if lc == nil {
+			return false
+		}
+		re := regexp.MustCompile(`(^|[^A-Za-z0-9_])` + regexp.QuoteMeta(name) + `($|[^A-Za-z0-9_])`)
+		for _, inv := range lc.Invariants {
+			if re.MatchString(inv.Src) {
+				return true
+			}
+		}
+		return false
+	}
 	for _, at := range c.Ats {
-		if at.Kind != "set" || !anchors[at.Anchor] {
+		if at.Kind != "set" || !anchors[at.Anchor] || !mentioned(at.Target) {
 			continue
 		}
 		for _, g := range c.Ghosts {
